@@ -1,5 +1,5 @@
 import slayer
-from props.scommon import scen, preempt_scenario, pp_exact_fit_scenario, join_scenario, resume_elsewhere_scenario, own_and_pool_oom_scenario
+from props.scommon import scen, preempt_scenario, pp_exact_fit_scenario, join_scenario, resume_elsewhere_scenario, own_and_pool_oom_scenario, ram_gone_cpus_left_scenario
 """C08 - valid configurations run to the end; shipped schedulers decide admissibly"""
 from layer_s import ALGOS
 
@@ -21,10 +21,12 @@ def scenarios(ctx, n):
         yield resume_elsewhere_scenario(s + i)
     for i in range(max(6, n // 16)):
         yield own_and_pool_oom_scenario(s + i)
+    for i in range(max(4, n // 30)):
+        yield ram_gone_cpus_left_scenario(s + i)
 
 
-def one_simulator_run(ctx, params, algo):
-    """run_simulator on one parameter set (a recorded case)"""
+def one_simulator_run(ctx, params, algo, spec=None):
+    """run_simulator on one parameter set (a recorded case); `spec`: a hand-built DAG workload"""
     import logging, sys, traceback
     from common import REPO
     logging.disable(logging.CRITICAL)
@@ -36,14 +38,19 @@ def one_simulator_run(ctx, params, algo):
     p["scheduler_algo"] = template_scheduler() if algo == "template" else algo
     ctx.coverage["evaluations"] += 1
     try:
-        run_simulator(p)
+        if spec is not None:
+            import det_run
+            run_simulator(p, workload=det_run.fixed_workload(spec))
+        else:
+            run_simulator(p)
         ctx.coverage["distinct_nontrivial"] += 1
     except BaseException as e:
         tb = traceback.extract_tb(e.__traceback__)
         where = next((f"{fr.name}" for fr in reversed(tb) if "eudoxia" in fr.filename), "?")
         sig = {"clause": "run_simulator-raised", "exception": type(e).__name__, "where": where}
         ctx.violations.append({"what": f"run_simulator raised {type(e).__name__}: {str(e)[:120]} (in {where}) for a valid configuration", "layer": "M",
-                               "params": {**params, "scheduler_algo": algo}, "sig": sig})
+                               **({"dag_case": {"spec": spec, "params": {**params, "scheduler_algo": algo}}} if spec is not None else {"params": {**params, "scheduler_algo": algo}}),
+                               "sig": sig})
 
 
 def simulator_runs(ctx, n):
@@ -89,14 +96,71 @@ def simulator_runs(ctx, n):
                     ctx.violations.append(v)
 
 
+def dag_simulator_runs(ctx, n):
+    """the same whole path on hand-built DAG workloads (forks with equal branches, diamonds, several roots and sinks): branches of one pipeline run side by side
+    in separate containers and end in the same tick -- the main loop's bookkeeping must cope"""
+    import logging, random, sys, traceback
+    from common import REPO, known_match
+    logging.disable(logging.CRITICAL)
+    if REPO not in sys.path:
+        sys.path.insert(0, REPO)
+    from eudoxia.simulator import run_simulator
+    from layer_s import template_scheduler
+    import det_run
+    rng = random.Random(ctx.seed + 131)
+    for i in range(n):
+        algo = ["priority", "overbook", "naive", "template", "priority-pool"][i % 5]
+        tps = rng.choice([1, 2, 4])
+        pipes = []
+        for _ in range(rng.randint(1, 3)):
+            k = rng.randint(1, 3)                     # ticks of the equal branches
+            shape = rng.choice(["fork", "fork", "diamond", "roots"])
+            if shape == "fork":
+                ops = [{"parents": [], "ticks": rng.randint(1, 2), "mem": 0.5}] + [{"parents": [0], "ticks": k, "mem": 0.5} for _ in range(rng.randint(2, 3))]
+            elif shape == "diamond":
+                ops = [{"parents": [], "ticks": 1, "mem": 0.5}, {"parents": [0], "ticks": k, "mem": 0.5}, {"parents": [0], "ticks": k, "mem": 0.5},
+                       {"parents": [1, 2], "ticks": 1, "mem": 0.5}]
+            else:
+                ops = [{"parents": [], "ticks": k, "mem": 0.5} for _ in range(rng.randint(2, 3))]
+            pipes.append({"prio": rng.choice([1, 2, 3]), "ops": ops})
+        nticks = 40
+        arrivals = [[] for _ in range(nticks)]
+        for j in range(len(pipes)):
+            arrivals[rng.randint(0, 3)].append(j)
+        spec = {"pipes": pipes, "arrivals": arrivals, "tps": tps}
+        params = {"duration": nticks / tps, "ticks_per_second": tps, "scheduler_algo": template_scheduler() if algo == "template" else algo,
+                  "num_pools": 2, "cpus_per_pool": 16, "ram_gb_per_pool": 64,
+                  "multi_operator_containers": True if algo == "priority-pool" else (False if algo in ("priority", "overbook") and i % 2 == 0 else rng.random() < 0.5),
+                  "allow_memory_overcommit": algo == "overbook"}
+        ctx.coverage["evaluations"] += 1
+        ctx.sit("run_simulator_calls_on_dag_workloads")
+        try:
+            st = run_simulator(params, workload=det_run.fixed_workload(spec))
+            if st.pipelines_all.completion_count == len(pipes):
+                ctx.coverage["distinct_nontrivial"] += 1
+        except BaseException as e:
+            tb = traceback.extract_tb(e.__traceback__)
+            where = next((f"{fr.name}" for fr in reversed(tb) if "eudoxia" in fr.filename), "?")
+            sig = {"clause": "run_simulator-raised", "exception": type(e).__name__, "where": where}
+            v = {"what": f"run_simulator raised {type(e).__name__}: {str(e)[:120]} (in {where}) on a DAG workload ({algo}, "
+                         f"multi_operator_containers={params['multi_operator_containers']})", "layer": "M",
+                 "dag_case": {"spec": spec, "params": {**params, "scheduler_algo": algo}}, "sig": sig}
+            if not any(x["sig"] == sig for x in ctx.violations):
+                ctx.violations.append(v)
+
+
 def run(ctx):
     n = 150 if ctx.quick() else 1500
     slayer.run_scenarios_s(ctx, "C08", scenarios(ctx, n), classify=classify)
     simulator_runs(ctx, 40 if ctx.quick() else 600)
+    dag_simulator_runs(ctx, 20 if ctx.quick() else 200)
 
 
 def replay(ctx, rep):
-    if "params" in rep:
+    if "dag_case" in rep:
+        d = rep["dag_case"]
+        one_simulator_run(ctx, {k: v for k, v in d["params"].items() if k != "scheduler_algo"}, d["params"]["scheduler_algo"], spec=d["spec"])
+    elif "params" in rep:
         one_simulator_run(ctx, {k: v for k, v in rep["params"].items() if k != "scheduler_algo"}, rep["params"]["scheduler_algo"])
     else:
         slayer.replay_s(ctx, "C08", rep)
